@@ -36,6 +36,23 @@ def handle (cmd : String) (args : List V) : Option V :=
       pure (V.ofInts ((List.range (hi - lo)).map (fun i => optByte (encCp (lo + i)))))
   | "cp.dec.all", [] =>
       some (V.ofInts ((List.range 256).map (fun i => optNat (decByte (UInt8.ofNat i)))))
+  -- blocks (C01 C02 C05 C06 C12)
+  | "blk.enc", [.sym kind, v] => do
+      let b ← Wire.parseBlock kind v
+      pure (V.list [.sym "ok", .hex b.enc, .int b.size, .int (if b.valid then 1 else 0), .int b.fmt])
+  | "blk.dec", [.sym kind, fmt, bytes] => do
+      let fmt ← fmt.nat?; let bytes ← bytes.bytes?
+      let d ← Wire.decoder kind fmt
+      match d.runM bytes with
+      | some (b, m, _) => pure (V.list [.sym "ok", b.toV, .int m.length, .hex (Wire.maskBytes m)])
+      | none => pure (V.err "raised")
+  | "rle.runs", [fs] => do
+      let fs ← Wire.frames? fs
+      pure (V.list ((runs fs).map (fun r => V.list [.int r.1, .int r.2.length])))
+  | "rle.canon", [n, tbl] => do
+      let n ← n.nat?
+      let tbl ← (← tbl.list?).mapM Wire.pair?
+      pure (.int (if canonicalFrom 0 n tbl then 1 else 0))
   | _, _ => none
 
 def handleLine (line : String) : String :=
